@@ -12,8 +12,8 @@ open Apd Apd.Oracle Cond
 theorem exactRound_eq (x : Dec) : exactRound x = { neg := x.neg, num := x.coeff, den := 1, e10 := x.exp } := rfl
 
 theorem roundCore_zero (c : Ctx) (hc : c.WF) (x : Dec) (hx : x.form = .finite) (hn : x.coeff = 0)
-    (h : NoSys (roundX c x true).2) :
-    Agrees c (exactRound x) (roundX c x true).1 (roundX c x true).2 := by
+    (h : NoSys (roundXFin c x true).2) :
+    Agrees c (exactRound x) (roundXFin c x true).1 (roundXFin c x true).2 := by
   obtain ⟨hp1, hpe, hemax, hemin, hemin0⟩ := hc
   have hr := roundX_short c x true hx hp1 (by rw [hn]; exact hp1) (Or.inl hn)
   rw [hr] at h ⊢
@@ -49,8 +49,8 @@ theorem roundCore_zero (c : Ctx) (hc : c.WF) (x : Dec) (hx : x.form = .finite) (
 
 theorem roundCore_subnormal (c : Ctx) (hc : c.WF) (x : Dec) (hx : x.form = .finite) (hn : x.coeff ≠ 0)
     (hadj : x.exp + (ndigits x.coeff : Int) - 1 < c.emin)
-    (h : NoSys (roundX c x true).2) :
-    Agrees c (exactRound x) (roundX c x true).1 (roundX c x true).2 := by
+    (h : NoSys (roundXFin c x true).2) :
+    Agrees c (exactRound x) (roundXFin c x true).1 (roundXFin c x true).2 := by
   obtain ⟨hp1, hpe, hemax, hemin, hemin0⟩ := hc
   rw [roundX_subnormal c x true hx hp1 hn hadj] at h ⊢
   have h' : NoSys (setExponent c x cSubnormal [x.exp]).2 := by
@@ -103,8 +103,8 @@ theorem roundCore_subnormal (c : Ctx) (hc : c.WF) (x : Dec) (hx : x.form = .fini
 
 theorem roundCore_short (c : Ctx) (hc : c.WF) (x : Dec) (hx : x.form = .finite) (hn : x.coeff ≠ 0)
     (hadj : c.emin ≤ x.exp + (ndigits x.coeff : Int) - 1) (hnd : ndigits x.coeff ≤ c.prec)
-    (h : NoSys (roundX c x true).2) :
-    Agrees c (exactRound x) (roundX c x true).1 (roundX c x true).2 := by
+    (h : NoSys (roundXFin c x true).2) :
+    Agrees c (exactRound x) (roundXFin c x true).1 (roundXFin c x true).2 := by
   obtain ⟨hp1, hpe, hemax, hemin, hemin0⟩ := hc
   rw [roundX_short c x true hx hp1 hnd (Or.inr hadj)] at h ⊢
   obtain ⟨hx0, ha1, ha2⟩ := setExponent_noSys _ _ _ _ h
@@ -145,8 +145,8 @@ theorem roundCore_short (c : Ctx) (hc : c.WF) (x : Dec) (hx : x.form = .finite) 
 
 theorem roundCore_long (c : Ctx) (hc : c.WF) (x : Dec) (hx : x.form = .finite)
     (hadj : c.emin ≤ x.exp + (ndigits x.coeff : Int) - 1) (hnd : c.prec < ndigits x.coeff)
-    (h : NoSys (roundX c x true).2) :
-    Agrees c (exactRound x) (roundX c x true).1 (roundX c x true).2 := by
+    (h : NoSys (roundXFin c x true).2) :
+    Agrees c (exactRound x) (roundXFin c x true).1 (roundXFin c x true).2 := by
   obtain ⟨hp1, hpe, hemax, hemin, hemin0⟩ := hc
   have hd : (ndigits x.coeff : Int) - (c.prec : Int) ≤ 100000 := by
     by_contra hgt
@@ -221,7 +221,8 @@ theorem roundCore_long (c : Ctx) (hc : c.WF) (x : Dec) (hx : x.form = .finite)
 theorem C01_roundCore (c : Ctx) (hc : c.WF) (x : Dec) (hx : x.form = .finite)
     (h : NoSys (ctxRound c x).2) :
     Agrees c (exactRound x) (ctxRound c x).1 (ctxRound c x).2 := by
-  unfold ctxRound at *
+  rw [ctxRound_finite c x hx] at h ⊢
+  unfold ctxRoundFin at *
   by_cases hn : x.coeff = 0
   · exact roundCore_zero c hc x hx hn h
   · by_cases hadj : x.exp + (ndigits x.coeff : Int) - 1 < c.emin
@@ -242,7 +243,7 @@ theorem C01_roundCore_prec0 (c : Ctx) (hc : c.WF0) (hp : c.prec = 0) (x : Dec) (
     AgreesExact c (exactRound x) (ctxRound c x).1 (ctxRound c x).2 := by
   obtain ⟨hpe, hemax0, hemax, hemin, hemin0⟩ := hc
   have hr : ctxRound c x = setExponent c x {} [x.exp] := by
-    unfold ctxRound roundX; simp [hp]
+    rw [ctxRound_finite c x hx]; unfold ctxRoundFin roundXFin; simp [hp]
   rw [hr] at h ⊢
   obtain ⟨hx0, ha1, ha2⟩ := setExponent_noSys _ _ _ _ h
   have hsum : sumInts [x.exp] = x.exp := by simp [sumInts]
@@ -401,7 +402,8 @@ theorem roundCore_noSys (c : Ctx) (hc : c.WF) (x : Dec) (hx : x.form = .finite) 
     NoSys (ctxRound c x).2 := by
   obtain ⟨hp1, hpe, hemax, hemin, hemin0⟩ := hc
   obtain ⟨w1, w2, w3, w4⟩ := hxw
-  unfold ctxRound
+  rw [ctxRound_finite c x hx]
+  unfold ctxRoundFin
   have hnoSys0 : NoSys ({} : Cond) := ⟨rfl, rfl⟩
   have hck : checkXs [x.exp, 0] = none := by
     rw [checkXs_none_iff]; simp; omega
